@@ -299,7 +299,7 @@ def run(chk):
         lf = a[0].value.id if (len(a) >= 2 and isinstance(a[0], ast.Subscript) and isinstance(a[0].value, ast.Name)) else None
         src = [x.value for x in ast.walk(meth.node) if isinstance(x, ast.Assign) and len(x.targets) == 1 and isinstance(x.targets[0], ast.Name) and
                x.targets[0].id == lf] if lf else []
-        okg = len(a) >= 3 and lf is not None and ast.unparse(a[0]) == "%s[0]" % lf and ast.unparse(a[1]) == "%s[1]" % lf and \
+        okg = (len(a) >= 3 or (len(a) == 2 and any(k.arg == "num" for k in n.keywords))) and lf is not None and ast.unparse(a[0]) == "%s[0]" % lf and ast.unparse(a[1]) == "%s[1]" % lf and \
             (base is None or (isinstance(base, ast.Constant) and base.value == 10)) and len(src) == 1 and isinstance(src[0], ast.Call) and \
             ast.unparse(src[0].func).split(".")[-1] == "log10"
         chk.ob("R-GUARD", "eqsig/single.py:%s.%s{grid}" % (meth.cls.name, meth.name), "smoothing grid = logspace(log10(limits)[0], log10(limits)[1], N, base=10)",
